@@ -58,8 +58,10 @@ def keyboards():
         raise X.ExtractError("no keyboard layouts")
     m = _load("lib_trainer/detection_rules/keyboard_walk.py", "lib_trainer.detection_rules.keyboard_walk")
     rows, names = [], []
+    del _keyboard_dicts[:]
     for f in order:
         kb = getattr(m, f)()
+        _keyboard_dicts.append(kb)
         if sorted(kb.keys()) != sorted(ROWS + ["name"]):
             raise X.ExtractError("layout %s: unexpected keys %r" % (f, sorted(kb.keys())))
         names.append(kb["name"])
@@ -77,6 +79,15 @@ def keyboards():
     mk = ast.literal_eval(d["min_keyboard_run"])
     fp = _local_list(X.find_func(t, "interesting_keyboard"), "false_positive_words")
     return rows, len(order), mk, fp
+
+
+_keyboard_dicts = []
+
+
+def keyboard_dicts():
+    """the layout dicts of the source in search order, as the table functions return them (checked by keyboards())"""
+    keyboards()
+    return [dict(kb) for kb in _keyboard_dicts]
 
 
 def multiword_args():
